@@ -1,1 +1,33 @@
-(* placeholder *)
+(* C11 - Stop returns in bounded time whatever clients are doing: once Stop has been called and while it has not returned, some step of the SERVER is enabled - no step of a client is ever needed (user code not holding a barrier or OnClose).
+   ONLY statements.  The model is the labelled transition system of Sys.v:
+   every interleaving of the Run thread, any number of Stop calls, connection
+   goroutines, per-request goroutines (with arbitrary handler scripts) and the
+   environment (clients, barriers, slow OnClose).  [reachable cfg s]: s is the
+   result of some label sequence from the initial state.  The boolean fields
+   of [cfg] are the places where the pinned and the current tree differ;
+   [fixed_cfg] is the current tree (validated behaviourally on every run by the
+   scenario correspondence), [pinned_cfg] the tree before the fix commits. *)
+From G Require Import Base Sys SysProofs SysProps.
+Open Scope nat_scope.
+
+Theorem C11_no_client_needed : forall cfg s, stop_interrupts cfg = true -> add_before_accept cfg = true ->
+  reachable cfg s -> alive s = true ->
+  (exists i p, nth_error (stops s) i = Some p /\ p <> SRet) -> no_external_block s ->
+  exists l, internal l = true /\ step cfg s l <> None.
+Proof. exact stop_progress. Qed.
+Print Assumptions C11_no_client_needed.
+
+Theorem C11_interrupt_pass : forall cfg s, reachable cfg s -> stop_interrupts cfg = true -> existsb past_interrupt (stops s) = true ->
+  Forall (fun c => interrupted c = true) (conns s).
+Proof. exact intr_inv_reachable. Qed.
+Print Assumptions C11_interrupt_pass.
+
+Theorem C11_pinned_refuted : exists s, run_labels pinned_cfg init
+              [ECallRun true true; LRun; LRun; EConnect; LRun; LRun; LConn 0; LConn 0;
+               ECallStop; LStop 0; LStop 0; LRun] = Some s /\
+            nth_error (stops s) 0 = Some SWait /\ length (stops s) = 1 /\ length (conns s) = 1 /\
+            (exists c, nth_error (conns s) 0 = Some c /\ hs c = []) /\
+            step pinned_cfg s (LStop 0) = None /\ step pinned_cfg s LRun = None /\
+            step pinned_cfg s (LConn 0) = None.
+Proof. exact stop_progress_pinned_refuted. Qed.
+Print Assumptions C11_pinned_refuted.
